@@ -164,7 +164,7 @@ _FL_CURVE = reg("Voi.Props.FL.Curve", "Voi.Props.FL.Models", "Voi.Props.FL.Encod
 _FL_FIELD = reg("Voi.Props.FL.Field", "Voi.Props.FL.Sqrt")
 _FL_BOUNDS = reg("Voi.Props.FL.Bounds", "Voi.FIR.Sound")
 for _k, _t in {"C03": {**_FL_CURVE, **_FL_BOUNDS}, "C04": {**_FL_FIELD, **_FL_BOUNDS}, "C06": _FL_BOUNDS, "C07": {**_FL_FIELD, **_FL_BOUNDS},
-               "C10": {**_FL_CURVE, **reg("Voi.Props.FL.Sqrt")}, "C11": {**_FL_CURVE, **reg("Voi.Props.FL.Sqrt")}}.items():
+               "C10": {**_FL_CURVE, **reg("Voi.Props.FL.Sqrt")}, "C11": {**_FL_CURVE, **reg("Voi.Props.FL.Sqrt", "Voi.Props.FL.Ristretto"), **_FL_BOUNDS}}.items():
     PROPS[_k]["theorems"] = {**PROPS[_k]["theorems"], **_t}
     PROPS[_k]["gens"] = sorted(set(PROPS[_k].get("gens") or []) | {"go2ir", "flevel"})
     # T2: the real functions against the regenerated field-level programs (validates the field-level translator); serial builds only
